@@ -658,6 +658,39 @@ func c14Gen(rt *rapid.T) c14Case {
 	return c
 }
 
+// c14ConcGen: histories dominated by concurrent callers that start at the same
+// instant (real parallelism on the picker's atomics), judged at the quiescent
+// points between episodes by the same interpreter.
+func c14ConcGen(rt *rapid.T) c14Case {
+	c := c14Case{
+		N:   rapid.SampledFrom([]int{1, 1, 2, 3, 4}).Draw(rt, "n"),
+		Pre: rapid.Int64Range(0, c14Sec).Draw(rt, "pre"),
+	}
+	c.Conns = c14GenConns(rt, c.N)
+	for i := range c.Conns {
+		c.Conns[i].Lat = rapid.SampledFrom([]int64{8, 1000, 100_000}).Draw(rt, "lat")
+	}
+	n := rapid.IntRange(1, 4).Draw(rt, "episodes")
+	for i := 0; i < n; i++ {
+		c.Ops = append(c.Ops, c14Op{K: "par",
+			J: rapid.SampledFrom([]int{0, 0, 1, 8}).Draw(rt, "j"),
+			C: rapid.IntRange(0, 15).Draw(rt, "c"),
+			B: rapid.Bool().Draw(rt, "b"),
+			G: rapid.IntRange(4, 16).Draw(rt, "g"),
+			M: rapid.IntRange(50, 400).Draw(rt, "m"),
+		})
+		if rapid.Bool().Draw(rt, "sep") {
+			c.Ops = append(c.Ops, c14Op{K: "adv", D: rapid.SampledFrom(c14Units).Draw(rt, "unit")})
+		}
+	}
+	return c
+}
+
+func TestVerif_C14_concurrent(t *testing.T) {
+	kit.Run(t, "C14", "concurrent", kit.Opts{Quick: 300, Thorough: 12000}, c14ConcGen,
+		func(c c14Case) kit.Verdict { return c14History(t, c) })
+}
+
 func TestVerif_C14_history(t *testing.T) {
 	kit.Run(t, "C14", "history", kit.Opts{Quick: 4000, Thorough: 160000}, c14Gen,
 		func(c c14Case) kit.Verdict { return c14History(t, c) })
@@ -777,16 +810,18 @@ func c14PrefGen(rt *rapid.T) c14PrefCase {
 		Pre:   rapid.Int64Range(0, c14Sec).Draw(rt, "pre"),
 		Lat:   rapid.SampledFrom(c14PrefLats).Draw(rt, "lat"),
 		Gap:   rapid.SampledFrom([]int64{0, 50_000, 300_000, 1_000_000}).Draw(rt, "gap"),
-		Picks: 48000,
 		UC:    rapid.IntRange(0, 4).Draw(rt, "uc"),
 		HC:    rapid.IntRange(0, 14).Draw(rt, "hc"),
 	}
+	// sample sizes: eps(N) <= 0.8 * 0.25/(1.75 n), i.e. a backend that is NOT avoided at
+	// all (share 1/n like the others) is reported with margin; see c14Preference
+	c.Picks = map[int]int{3: 16000, 4: 24000, 5: 36000, 6: 48000}[c.N]
 	c.U = rapid.IntRange(0, c.N-1).Draw(rt, "u")
 	return c
 }
 
 func TestVerif_C14_preference(t *testing.T) {
-	kit.Run(t, "C14", "preference", kit.Opts{Quick: 40, Thorough: 1600}, c14PrefGen,
+	kit.Run(t, "C14", "preference", kit.Opts{Quick: 24, Thorough: 1600}, c14PrefGen,
 		func(c c14PrefCase) kit.Verdict { return c14Preference(t, c) })
 }
 
@@ -944,6 +979,6 @@ func c14StarveGen(rt *rapid.T) c14StarveCase {
 }
 
 func TestVerif_C14_starvation(t *testing.T) {
-	kit.Run(t, "C14", "starvation", kit.Opts{Quick: 60, Thorough: 2400}, c14StarveGen,
+	kit.Run(t, "C14", "starvation", kit.Opts{Quick: 50, Thorough: 2400}, c14StarveGen,
 		func(c c14StarveCase) kit.Verdict { return c14Starvation(t, c) })
 }
